@@ -155,25 +155,41 @@ func HumanizeBytes(bytes int64) string {
 	return fmt.Sprintf("%.1f %cB", float64(bytes)/float64(div), suffixes[exp])
 }
 
+// SkippedPath records a path the directory walk could not inspect or descend into.
+type SkippedPath struct {
+	Path string
+	Err  error
+}
+
 // Recursively finds Go files using the provided FileSystem.
 func CollectFiles(fsys FileSystem, target string) ([]string, error) {
+	files, _, err := CollectFilesWithSkipped(fsys, target)
+	return files, err
+}
+
+// CollectFilesWithSkipped is CollectFiles that also returns the paths the walk
+// had to skip (unreadable directories or entries), so that callers can report
+// them instead of silently analysing less than the target.
+func CollectFilesWithSkipped(fsys FileSystem, target string) ([]string, []SkippedPath, error) {
 	// Clean the target path to ensure reliable string comparison
 	target = filepath.Clean(target)
 	info, err := fsys.Stat(target)
 	if err != nil {
-		return nil, err
+		return nil, nil, err
 	}
 	if !info.IsDir() {
 		if strings.HasSuffix(target, ".go") && !isTestFile(target) {
-			return []string{target}, nil
+			return []string{target}, nil, nil
 		}
-		return nil, nil
+		return nil, nil, nil
 	}
 	var files []string
+	var skipped []SkippedPath
 
 	err = fsys.WalkDir(target, func(path string, d fs.DirEntry, err error) error {
 		if err != nil {
 			fmt.Fprintf(os.Stderr, "warning: skipping %s: %v\n", path, err)
+			skipped = append(skipped, SkippedPath{Path: path, Err: err})
 			return nil
 		}
 		if d.IsDir() {
@@ -191,7 +207,7 @@ func CollectFiles(fsys FileSystem, target string) ([]string, error) {
 		}
 		return nil
 	})
-	return files, err
+	return files, skipped, err
 }
 
 func isTestFile(path string) bool {
